@@ -240,14 +240,62 @@ def write(col):
     return buf.getvalue()
 
 
-def run_pipeline(first, want_streams=True):
-    """first() -> Collada (M0 built, or M1 loaded).  Returns the per-stage record."""
+def apply_edits(col, ops):
+    """in-place numpy edits of the live model between two writes (the arrays a user holds:
+    source.data and the primitive's bound views of it)"""
+    import numpy
+    for op in ops:
+        geoms = list(col.geometries)
+        if not geoms:
+            return
+        g = geoms[op['geom'] % len(geoms)]
+        srcs = sorted((s for s in {id(x): x for x in g.sourceById.values() if hasattr(x, 'components')}.values()),
+                      key=lambda x: str(x.id))
+        k = op['op']
+        if k in ('scale', 'set', 'fill', 'add'):
+            if not srcs:
+                continue
+            src = srcs[op['src'] % len(srcs)]
+            d = src.data
+            if d.size == 0:
+                continue
+            if k == 'scale':
+                d *= op['k']
+            elif k == 'add':
+                d += op['k']
+            elif k == 'set':
+                d[op['row'] % d.shape[0], op['col'] % d.shape[1]] = op['v']
+            else:
+                d[...] = numpy.resize(numpy.array(op['values'], dtype=d.dtype), d.shape)
+        elif k == 'vertex':
+            prims = [p for p in g.primitives if getattr(p, 'vertex', None) is not None and len(p.vertex)]
+            if not prims:
+                continue
+            pr = prims[op['prim'] % len(prims)]
+            pr.vertex[op['row'] % len(pr.vertex)] = op['v']
+        elif k == 'normal':
+            prims = [p for p in g.primitives if getattr(p, 'normal', None) is not None and len(p.normal)]
+            if not prims:
+                continue
+            pr = prims[op['prim'] % len(prims)]
+            pr.normal[op['row'] % len(pr.normal)] = op['v']
+
+
+def run_pipeline(first, want_streams=True, edits=None):
+    """first() -> Collada (M0 built, or M1 loaded).  With `edits` (rounds of in-place array
+    edits) the model is first written, edited, written, edited ...: the state after the last
+    edit is the model M0 the clauses talk about.  Returns the per-stage record."""
     import collada
     from harness.impl.c01_snapshot import snapshot
     rec = {'stage': None, 'error': None, 'snaps': [], 'digests': [], 'streams': [], 'sizes': []}
     stage = 'build'
     try:
         col = first()
+        for ri, ops in enumerate(edits or []):
+            stage = 'prewrite%d' % ri
+            write(col)
+            stage = 'edit%d' % ri
+            apply_edits(col, ops)
         rec['snaps'].append(snapshot(col))
         for gen in (1, 2, 3):
             stage = 'write%d' % gen
@@ -269,12 +317,23 @@ def run_pipeline(first, want_streams=True):
 
 
 def run_prog(prog):
+    import collada
+    if 'xml' in prog:
+        # a document from the independent XML generator: in scope only if it loads
+        data = prog['xml'].encode('utf-8')
+        try:
+            collada.Collada(io.BytesIO(data))
+        except Exception as e:  # noqa
+            return {'stage': None, 'error': None, 'not_loadable': exc_name(e), 'snaps': [], 'digests': [],
+                    'streams': [], 'sizes': []}
+        rec = run_pipeline(lambda: collada.Collada(io.BytesIO(data)), edits=prog.get('_edits'))
+        rec['derived'] = 'xml'
+        return rec
     how = prog.get('_derive')
     if how is None:
-        return run_pipeline(lambda: build(prog))
-    import collada
+        return run_pipeline(lambda: build(prog), edits=prog.get('_edits'))
     data = derive(write(build(prog)), how)
-    rec = run_pipeline(lambda: collada.Collada(io.BytesIO(data)))
+    rec = run_pipeline(lambda: collada.Collada(io.BytesIO(data)), edits=prog.get('_edits'))
     rec['derived'] = how
     return rec
 
